@@ -182,6 +182,34 @@ def star_args_bound_whole(ctx: Ctx, rule: str) -> int:
     return n
 
 
+def pair_values_rule(ctx: Ctx, rule: str) -> int:
+    """every comprehension of the composer over `<mapping>.items()` that yields (key, hash) pairs builds the hash part from the VALUE variable
+    of the loop: hashing the key a second time makes the entry a constant - what the name resolves to no longer matters"""
+    rep = ctx.report
+    from .roles import composer as _role_composer
+    comp_f = _role_composer(ctx)
+    n = 0
+    for x in comp_f.own_nodes():
+        if not (isinstance(x, (ast.ListComp, ast.GeneratorExp)) and isinstance(x.elt, ast.Tuple) and len(x.elt.elts) == 2 and len(x.generators) == 1):
+            continue
+        g = x.generators[0]
+        if not (isinstance(g.target, ast.Tuple) and len(g.target.elts) == 2 and all(isinstance(t, ast.Name) for t in g.target.elts)
+                and isinstance(g.iter, ast.Call) and isinstance(g.iter.func, ast.Attribute) and g.iter.func.attr == "items"):
+            continue
+        kv, vv = g.target.elts[0].id, g.target.elts[1].id
+        n += 1
+        val_names = {y.id for y in ast.walk(x.elt.elts[1]) if isinstance(y, ast.Name)}
+        desc = f"pair value `{unparse(x.elt.elts[1], 40)}` of the entries of `{unparse(g.iter.func.value, 30)}` depends on the mapping's value `{vv}`"
+        if vv in val_names:
+            rep.ok(rule, comp_f.qname, desc, comp_f.loc(x.elt))
+        else:
+            rep.bad(rule, comp_f.qname, desc, comp_f.loc(x.elt), [f"{comp_f.loc(x.elt)}: the entry `{unparse(x.elt, 70)}` does not use `{vv}` (what `{kv}` stands for in `{unparse(g.iter.func.value, 30)}`)",
+                    "`from extlib import lowest as pick` re-pointed to `highest as pick`: the text of the pipeline function is unchanged, the entry of `pick` is hashed from its "
+                    "name alone, every signature stays the same and the result computed with the old callee is served"], stmt_key(x.elt),
+                    what="a dependency entry of the signature is built from its key alone: re-pointing the name changes no signature")
+    return n
+
+
 def run(ctx: Ctx) -> None:
     rep = ctx.report
     prog = ctx.prog
@@ -470,6 +498,22 @@ def run(ctx: Ctx) -> None:
     rep.rule("C13.R12", "a binder that accepts *args parameters binds all the remaining positional arguments to them (the slice from the parameter's index on), not the first one only")
     n12 = star_args_bound_whole(ctx, "C13.R12")
     rep.floor("C13.R12", n12, 2)
+    if rep.prop == "C13":
+        from .c05 import pinned_combinations
+        rep.rule("C13.R14", "as C03.R15: the combiner of the (key, hash) pairs is the pinned one (exclusive-or of the digests, rendered as pinned): calls that bind a different value get a "
+                            "different signature also when the signature has many components (an `or` of digests saturates: the contribution of one argument is covered by the others)")
+        n14 = pinned_combinations(ctx, "C13.R14")
+        rep.floor("C13.R14", n14, 6)
+        from .c01 import pairs_distinct
+        rep.rule("C13.R15", "as C01.R11: the call-site context of a kept call with run-time arguments holds the input signature of the enclosing function (its binding): no component "
+                            "is written twice in place of another one")
+        n15 = pairs_distinct(ctx, "C13.R15")
+        rep.floor("C13.R15", n15, 1)
+    if rep.prop == "C13":
+        from .common import forwarding_complete
+        rep.rule("C13.R13", "as C01.R21: `*args` and `**kwargs` are handed over together on the way from the user's call to the binder")
+        n13 = forwarding_complete(ctx, "C13.R13", "a keyword argument dropped by a wrapper is not part of the binding: f(10, factor=5) and f(10) share a signature")
+        rep.floor("C13.R13", n13, 4)
     from .c05 import falsy_distinct
     rep.rule("C13.R10", "calls that bind a different value get a different signature, falsy values included: None, 0, 0.0, \"\", [] and {} are digested from different bytes")
     n10 = falsy_distinct(ctx, "C13.R10")
